@@ -23,8 +23,9 @@ import zipfile
 import common
 from common import coq_list, coq_z
 
-THEOREMS = ["C20_status", "C20_caught", "C20_total_schema_deser", "C20_total_partial", "C20_total_refuted",
-            "C20_equiv_sound", "C20_missing_attributes", "C20_equiv_complete",
+THEOREMS = ["C20_status", "C20_caught", "C20_total", "C20_compare_step_total",
+            "C20_equiv_sound", "C20_equiv_sound_partial", "C20_equiv_sound_refuted",
+            "C20_missing_attributes", "C20_equiv_complete",
             "C20_equiv_detects_example", "C20_tables_nonempty"]
 
 PRELUDE = ("From Coq Require Import List ZArith String.\n"
@@ -240,6 +241,92 @@ def directed_store():
                                                                         supplemental_semantic_id=[ext("urn:s:sup")])]),
         "urn:x:aas")
     return model.DictObjectStore([sm, aas])
+
+
+UNORDERED_KEYS = {"assetAdministrationShells", "submodels", "conceptDescriptions", "submodelElements", "qualifiers",
+                  "extensions", "supplementalSemanticIds", "specificAssetIds", "isCaseOf", "embeddedDataSpecifications",
+                  "statements", "annotations", "description", "displayName"}
+UNORDERED_VALUE_OF = {"SubmodelElementCollection", "MultiLanguageProperty"}
+
+
+def permute_unordered(doc, rng, only=None, stats=None):
+    """a deep copy of a JSON document with the members of every object shuffled and every list that has no order
+    in the metamodel really permuted (`only`: just the lists under that key)"""
+    def real_permutation(l):
+        if len(l) < 2:
+            return list(l), False
+        new = list(l)
+        rng.shuffle(new)
+        if new == l:
+            new = new[1:] + new[:1]
+        return new, new != l
+
+    def go(x, key=None, parent_type=None, owner=None):
+        # owner: the key of the list the enclosing object is a member of (specificAssetIds, qualifiers, ...)
+        if isinstance(x, dict):
+            items = list(x.items())
+            if only is None:
+                rng.shuffle(items)
+            return {k: go(v, k, x.get("modelType"), owner) for k, v in items}
+        if isinstance(x, list):
+            l = [go(v, None, None, key) for v in x]
+            name = key if key in UNORDERED_KEYS else \
+                (parent_type + ".value" if key == "value" and parent_type in UNORDERED_VALUE_OF else None)
+            if name == "supplementalSemanticIds" and owner == "specificAssetIds":
+                name = "supplementalSemanticIds@SpecificAssetId"     # compared through SpecificAssetId.__eq__
+            if name is not None and (only is None or only == name):
+                l, changed = real_permutation(l)
+                if changed and stats is not None:
+                    stats[name] = stats.get(name, 0) + 1
+            return l
+        return x
+    return go(doc)
+
+
+def collections_store():
+    """at least two members in every collection that has no order in the metamodel, at several depths"""
+    from basyx.aas import model
+    ext = lambda v: model.ExternalReference((model.Key(model.KeyTypes.GLOBAL_REFERENCE, v),))
+    mref = lambda v: model.ModelReference((model.Key(model.KeyTypes.SUBMODEL, v),), model.Submodel)
+    sup = lambda p: [ext(f"urn:{p}:sup1"), ext(f"urn:{p}:sup2"), ext(f"urn:{p}:sup3")]
+    quals = lambda p: [model.Qualifier(f"{p}q1", model.datatypes.String, "a", semantic_id=ext(f"urn:{p}:q1"),
+                                       supplemental_semantic_id=sup(p + "q1")),
+                       model.Qualifier(f"{p}q2", model.datatypes.Int, 2)]
+    exts = lambda p: [model.Extension(f"{p}e1", model.datatypes.String, "a", semantic_id=ext(f"urn:{p}:e1"),
+                                      supplemental_semantic_id=sup(p + "e1"), refers_to=[mref("urn:r1"), mref("urn:r2")]),
+                      model.Extension(f"{p}e2")]
+    texts = lambda: model.MultiLanguageTextType({"en": "text", "de": "Text", "fr": "texte"})
+    prop = lambda n, p: model.Property(n, model.datatypes.String, "v", semantic_id=ext(f"urn:{p}:sem"),
+                                       supplemental_semantic_id=sup(p), qualifier=quals(p), extension=exts(p),
+                                       description=texts())
+    r = mref("urn:x")
+    sm = model.Submodel("urn:coll:sm", [
+        prop("p1", "p1"), prop("p2", "p2"),
+        model.MultiLanguageProperty("mlp", model.MultiLanguageTextType({"en": "a", "de": "b"})),
+        model.SubmodelElementCollection("c", [prop("cp1", "cp1"), prop("cp2", "cp2"),
+                                              model.SubmodelElementCollection("cc", [prop("x1", "x1"), prop("x2", "x2")])],
+                                        supplemental_semantic_id=sup("c"), semantic_id=ext("urn:c:sem")),
+        model.Entity("e", model.EntityType.SELF_MANAGED_ENTITY, [prop("s1", "s1"), prop("s2", "s2")],
+                     global_asset_id="urn:e:asset",
+                     specific_asset_id=[model.SpecificAssetId("n1", "v1", ext("urn:subj1"), semantic_id=ext("urn:n1"),
+                                                              supplemental_semantic_id=sup("n1")),
+                                        model.SpecificAssetId("n2", "v2", ext("urn:subj2"))]),
+        model.AnnotatedRelationshipElement("a", r, r, annotation=[prop("a1", "a1"), prop("a2", "a2")]),
+    ], semantic_id=ext("urn:sm:sem"), supplemental_semantic_id=sup("sm"), qualifier=quals("sm"), extension=exts("sm"),
+        description=texts(), display_name=model.MultiLanguageNameType({"en": "n", "de": "N"}))
+    sm2 = model.Submodel("urn:coll:sm2")
+    aas = model.AssetAdministrationShell(
+        model.AssetInformation(model.AssetKind.INSTANCE, global_asset_id="urn:coll:asset",
+                               specific_asset_id=[model.SpecificAssetId("a1", "v1", ext("urn:subj1")),
+                                                  model.SpecificAssetId("a2", "v2", ext("urn:subj2"),
+                                                                        supplemental_semantic_id=sup("a2"),
+                                                                        semantic_id=ext("urn:a2"))]),
+        "urn:coll:aas", submodel={mref("urn:coll:sm"), mref("urn:coll:sm2"), mref("urn:coll:absent")},
+        extension=exts("aas"), description=texts())
+    cd = model.ConceptDescription("urn:coll:cd", is_case_of=[ext("urn:case1"), ext("urn:case2"), ext("urn:case3")],
+                                  extension=exts("cd"))
+    cd2 = model.ConceptDescription("urn:coll:cd2")
+    return model.DictObjectStore([sm, sm2, aas, cd, cd2])
 
 
 def unordered_list_store():
@@ -750,35 +837,63 @@ def check_files(chk, rng, quick, tmp, esc_model, compared_model):
         with open(p, "w", encoding="utf-8") as f:
             json.dump(doc, f)
         return p
-    for k in range(5 if quick else 30):
-        d = copy.deepcopy(full_json)
-
-        def shuffle(x):
-            if isinstance(x, dict):
-                items = list(x.items())
-                rng.shuffle(items)
-                x.clear()
-                for kk, vv in items:
-                    x[kk] = vv
-                    shuffle(vv)
-            elif isinstance(x, list):
-                for vv in x:
-                    shuffle(vv)
-        shuffle(d)
-        for key in ("assetAdministrationShells", "submodels", "conceptDescriptions"):
-            if key in d:
-                rng.shuffle(d[key])
-        for sm in d.get("submodels", []):
-            rng.shuffle(sm.get("submodelElements", []))
-        p2 = dump(d, f"shuffled{k}.json")
-        raised, statuses, overall = call(two["json.check_json_files_equivalence"], written[("full", "json")], p2)
-        chk.seen(("equiv-shuffled", k), nontrivial=True)
-        chk.count("equivalence=shuffled")
-        if raised is not None:
-            report_raise(chk, "json.check_json_files_equivalence", raised, esc_model, {"input_kind": "shuffled"})
-        elif overall != 0:
-            chk.fail("C20:equivalence:equal-data-rejected", f"same data in another order: steps {statuses}",
-                     {"input_kind": "shuffled copy of the full example"})
+    # same data, other element order: every collection without an order in the metamodel is permuted (and the
+    # members of every JSON object); ordered ones (keys of a reference, SubmodelElementList.value, operation
+    # variables) are left alone
+    from basyx.aas.adapter.json import read_aas_json_file as _read_json
+    coll_path = os.path.join(tmp, "collections.json")
+    write_store(collections_store(), "json", coll_path)
+    sources = {"full": (full_json, written[("full", "json")]),
+               "collections": (json.load(open(coll_path, encoding="utf-8")), coll_path),
+               "example": (json.load(open(written[("all", "json")], encoding="utf-8")), written[("all", "json")])}
+    xml_of = {}
+    for sname, (doc, pjson) in sources.items():
+        with open(pjson, encoding="utf-8") as f:
+            st = _read_json(f)
+        xml_of[sname] = os.path.join(tmp, f"perm-src-{sname}.xml")
+        write_store(st, "xml", xml_of[sname])
+    for k in range(4 if quick else 24):
+        for sname, (doc, pjson) in sources.items():
+            permuted = {}
+            d = permute_unordered(doc, rng, stats=permuted)
+            for key, cnt in permuted.items():
+                chk.count("permuted:" + key, cnt)
+            p2 = dump(d, f"shuffled-{sname}{k}.json")
+            with open(p2, encoding="utf-8") as f:
+                st2 = _read_json(f)
+            px2 = os.path.join(tmp, f"shuffled-{sname}{k}.xml")
+            write_store(st2, "xml", px2)
+            runs = [("json.check_json_files_equivalence", two["json.check_json_files_equivalence"], (pjson, p2)),
+                    ("xml.check_xml_files_equivalence", two["xml.check_xml_files_equivalence"], (xml_of[sname], px2))]
+            if sname == "example":
+                runs += [("json.check_aas_example", one["json.check_aas_example"], (p2,)),
+                         ("xml.check_aas_example", one["xml.check_aas_example"], (px2,))]
+            for fname, fn, args in runs:
+                raised, statuses, overall = call(fn, *args)
+                chk.seen(("equiv-shuffled", sname, k, fname), nontrivial=True)
+                chk.count("equivalence=shuffled")
+                rp = {"input_kind": "permuted", "store": sname, "function": fname,
+                      "how": "tools/c20.py: permute_unordered(doc, rng) of the SDK-written store, compared with the original"}
+                if raised is not None:
+                    report_raise(chk, fname, raised, esc_model, rp)
+                elif overall != 0:
+                    # which collection is it?  permute one kind of collection at a time
+                    culprits = []
+                    for key in sorted(permuted):
+                        d1 = permute_unordered(doc, rng, only=key)
+                        p3 = dump(d1, "shuffled-one.json")
+                        if fname.startswith("xml."):
+                            with open(p3, encoding="utf-8") as f:
+                                st3 = _read_json(f)
+                            p3 = os.path.join(tmp, "shuffled-one.xml")
+                            write_store(st3, "xml", p3)
+                        r1, s1, o1 = call(fn, *(args[:-1] + (p3,)))
+                        if r1 is None and o1 != 0:
+                            culprits.append(key)
+                    for key in culprits or ["?"]:
+                        chk.fail(f"C20:equivalence:equal-data-rejected:permuted:{key}",
+                                 f"{fname}: the {sname} store and a copy with its {key} lists permuted are reported as "
+                                 f"different: steps {statuses}", dict(rp, permuted_only=key))
     for (sname, fmt), p in written.items():
         ext = fmt.split("-")[0]
         fname = {"json": "json.check_json_files_equivalence", "xml": "xml.check_xml_files_equivalence",
@@ -795,13 +910,71 @@ def check_files(chk, rng, quick, tmp, esc_model, compared_model):
         raised, statuses, overall = call(two[fname], p, other)
         if raised is None and overall == 0 and sname != "empty":
             chk.fail("C20:equivalence:different-files-accepted", f"{sname} vs another store in {fmt}: SUCCESS", {})
-    pu = os.path.join(tmp, "unordered.json")
-    write_store(unordered_list_store(), "json", pu)
-    raised, statuses, overall = call(two["json.check_json_files_equivalence"], pu, pu)
-    chk.seen(("equiv-unordered",), nontrivial=True)
-    if raised is not None:
-        report_raise(chk, "json.check_json_files_equivalence", raised, esc_model,
-                     {"input_kind": "SubmodelElementList with orderRelevant=false, compared with itself"})
+    # unordered SubmodelElementLists: AASDataChecker refuses them (NotImplementedError); the comparing functions
+    # must report that as a step, never raise.  Equal data reported as FAILED is the (open) verdict defect.
+    eq_fn = {"json": "json.check_json_files_equivalence", "xml": "xml.check_xml_files_equivalence",
+             "aasx": "aasx.check_aasx_files_equivalence"}
+    for fmt in ("json", "xml", "aasx-json"):
+        ext = fmt.split("-")[0]
+        pu = os.path.join(tmp, "unordered." + ext)
+        write_store(unordered_list_store(), fmt, pu)
+        raised, statuses, overall = call(two[eq_fn[ext]], pu, pu)
+        chk.seen(("equiv-unordered", fmt), nontrivial=True)
+        chk.count("equivalence=unordered-list")
+        rp = {"input_kind": f"SubmodelElementList with orderRelevant=false in {fmt}, compared with itself"}
+        if raised is not None:
+            report_raise(chk, eq_fn[ext], raised, esc_model, rp)
+        elif overall != 0:
+            chk.fail(f"C20:equivalence:equal-data-rejected:unordered-list:{ext}",
+                     f"{eq_fn[ext]}: a file holding a SubmodelElementList with orderRelevant=false compared with "
+                     f"itself: steps {statuses}", rp)
+    # check_aas_example on the example data with its lists made unordered: FAILED is the right verdict
+    from basyx.aas.adapter.json import read_aas_json_file
+    from basyx.aas.examples.data import create_example, create_example_aas_binding
+
+    def unordered_copy(store, name):
+        p = os.path.join(tmp, name + ".src.json")
+        write_store(store, "json", p)
+        doc = json.load(open(p, encoding="utf-8"))
+        n = [0]
+
+        def flip(x):
+            if isinstance(x, dict):
+                if x.get("modelType") == "SubmodelElementList":
+                    x["orderRelevant"] = False
+                    n[0] += 1
+                for v in x.values():
+                    flip(v)
+            elif isinstance(x, list):
+                for v in x:
+                    flip(v)
+        flip(doc)
+        p2 = os.path.join(tmp, name + ".unordered.json")
+        json.dump(doc, open(p2, "w", encoding="utf-8"))
+        return p2, n[0]
+    pj, nlists = unordered_copy(create_example(), "example")
+    chk.cov["example_lists_made_unordered"] = nlists
+    with open(pj, encoding="utf-8") as f:
+        st_u = read_aas_json_file(f)
+    px = os.path.join(tmp, "example.unordered.xml")
+    write_store(st_u, "xml", px)
+    pb, _ = unordered_copy(create_example_aas_binding(), "binding")
+    with open(pb, encoding="utf-8") as f:
+        st_b = read_aas_json_file(f)
+    pa = os.path.join(tmp, "example.unordered.aasx")
+    write_store(st_b, "aasx-xml", pa)
+    for fname, p in (("json.check_aas_example", pj), ("xml.check_aas_example", px), ("aasx.check_aas_example", pa)):
+        raised, statuses, overall = call(one[fname], p)
+        chk.seen(("example-unordered", fname), nontrivial=True)
+        chk.count("input=example-with-unordered-lists")
+        rp = {"function": fname, "input_kind": "the example data with orderRelevant=false on its lists"}
+        if raised is not None:
+            report_raise(chk, fname, raised, esc_model, rp)
+        elif overall == 0 and nlists:
+            chk.fail(f"C20:example:unordered-lists-accepted:{fname}", f"{fname}: data differing from the example in "
+                     f"orderRelevant reported as SUCCESS", rp)
+        elif overall != max(statuses, default=0):
+            chk.fail("C20:status-not-worst", f"{fname}: overall {overall}, steps {statuses}", rp)
     # 5. single-leaf mutations of the full example as the second file
     pdir = os.path.join(tmp, "directed.json")
     write_store(directed_store(), "json", pdir)
@@ -875,6 +1048,68 @@ def replay(path):
             raised, statuses, overall = call(one[rp["function"]], p)
             print("raised:", repr(raised), "steps:", statuses, "overall:", overall)
             return 1 if raised is not None or overall != max(statuses, default=0) else 0
+        kind = rp.get("input_kind") or ""
+        if kind == "permuted":
+            import random
+            from basyx.aas.adapter.json import read_aas_json_file
+            src = {"full": lambda: example_stores()["full"], "collections": collections_store,
+                   "example": lambda: example_stores()["all"]}[rp["store"]]()
+            p0 = os.path.join(tmp, "a.json")
+            write_store(src, "json", p0)
+            doc = json.load(open(p0, encoding="utf-8"))
+            p1 = os.path.join(tmp, "b.json")
+            json.dump(permute_unordered(doc, random.Random(0), only=rp.get("permuted_only")), open(p1, "w", encoding="utf-8"))
+            fn = rp["function"]
+            if fn.startswith("xml."):
+                paths = []
+                for p in (p0, p1):
+                    with open(p, encoding="utf-8") as f:
+                        st = read_aas_json_file(f)
+                    write_store(st, "xml", p[:-4] + "xml")
+                    paths.append(p[:-4] + "xml")
+                p0, p1 = paths
+            raised, statuses, overall = call(two[fn], p0, p1) if fn in two else call(one[fn], p1)
+            print(fn, "raised:", repr(raised), "steps:", statuses, "overall:", overall)
+            return 1 if raised is not None or overall != 0 else 0
+        if "orderRelevant=false" in kind:
+            from basyx.aas.adapter.json import read_aas_json_file
+            from basyx.aas.examples.data import create_example, create_example_aas_binding
+            if "compared with itself" in kind:
+                fmt = next(f for f in ("aasx-json", "json", "xml") if f" in {f}," in kind)
+                ext = fmt.split("-")[0]
+                p = os.path.join(tmp, "unordered." + ext)
+                write_store(unordered_list_store(), fmt, p)
+                fn = {"json": "json.check_json_files_equivalence", "xml": "xml.check_xml_files_equivalence",
+                      "aasx": "aasx.check_aasx_files_equivalence"}[ext]
+                raised, statuses, overall = call(two[fn], p, p)
+            else:
+                fn = rp["function"]
+                ext = fn.split(".")[0]
+                src = create_example_aas_binding() if ext == "aasx" else create_example()
+                p0 = os.path.join(tmp, "src.json")
+                write_store(src, "json", p0)
+                doc = json.load(open(p0, encoding="utf-8"))
+
+                def flip(x):
+                    if isinstance(x, dict):
+                        if x.get("modelType") == "SubmodelElementList":
+                            x["orderRelevant"] = False
+                        for v in x.values():
+                            flip(v)
+                    elif isinstance(x, list):
+                        for v in x:
+                            flip(v)
+                flip(doc)
+                p = os.path.join(tmp, "u.json")
+                json.dump(doc, open(p, "w", encoding="utf-8"))
+                if ext != "json":
+                    with open(p, encoding="utf-8") as f:
+                        st = read_aas_json_file(f)
+                    p = os.path.join(tmp, "u." + ext)
+                    write_store(st, "xml" if ext == "xml" else "aasx-xml", p)
+                raised, statuses, overall = call(one[fn], p)
+            print(fn, "raised:", repr(raised), "steps:", statuses, "overall:", overall)
+            return 1 if raised is not None or ("compared with itself" in kind and overall != 0) else 0
         if "typed" in rp and "carrier" in rp:
             typ, vals, perturb = typed_bases()[rp["typed"]]
             base = {(bi, c): v for bi, v in enumerate(vals) for c in CARRIERS}
